@@ -1192,10 +1192,14 @@ class Stack(list):
 
     def op_checkmultisig(self, message, data=None):
         n = decode_num(self.pop())
+        if n < 0 or n > 20:
+            return False
         pubkeys = []
         for _ in range(n):
             pubkeys.append(self.pop())
         m = decode_num(self.pop())
+        if m < 0 or m > n:
+            return False
         signatures = []
         for _ in range(m):
             signatures.append(self.pop())
